@@ -15,7 +15,7 @@ type talentState struct {
 	damageBoost float64
 }
 
-func (c *char) initTalent() {
+func init() {
 	modifier.Register(Talent, modifier.Config{
 		StatusType: model.StatusType_STATUS_BUFF,
 		Stacking:   modifier.ReplaceBySource,
